@@ -65,6 +65,9 @@ def MovesExactly (sel : Selection) (g : Vec3 Rat → Vec3 Rat) (db db' : List At
     (sel i a = true →
       a' = { a with x := (g (xyzOf a)).x, y := (g (xyzOf a)).y, z := (g (xyzOf a)).z })
 
+/-- every non-coordinate attribute equal -/
+def SameAttrs (a a' : Atom) : Prop := a' = { a with x := a'.x, y := a'.y, z := a'.z }
+
 /-- executable form of the same statement (what the Spec driver evaluates) -/
 def moveSelected (sel : Selection) (g : Vec3 Rat → Vec3 Rat) (db : List Atom) : List Atom :=
   db.zipIdx.map (fun ai =>
